@@ -2108,7 +2108,17 @@ func (p *parser) parseCallOrConversion(fun ast.Expr, isCmd bool) *ast.CallExpr {
 	p.exprLev--
 	var noParenEnd token.Pos
 	if isCmd {
-		noParenEnd = p.pos
+		// end of the last token of the call, not the start of the token that follows it
+		switch {
+		case rparen != token.NoPos: // println (a, b)
+			noParenEnd = rparen + 1
+		case ellipsis.IsValid():
+			noParenEnd = ellipsis + 3
+		case len(list) > 0:
+			noParenEnd = list[len(list)-1].End()
+		default:
+			noParenEnd = p.pos
+		}
 	} else if rparen == token.NoPos {
 		rparen = p.expectClosing(token.RPAREN, "argument list")
 	}
